@@ -191,6 +191,7 @@ Section Frame.
     (forall c w fs H r H', rpoll F c w fs H = Some (r, H') -> R H H') /\
     (forall cid w H r H', rpoll_next F cid w H = Some (r, H') -> R H H') /\
     (forall cid H H', rsettle F cid H = Some H' -> R H H') /\
+    (forall cid H H', rloop F cid H = Some H' -> R H H') /\
     (forall cid H H', rdrain F cid H = Some H' -> R H H') /\
     (forall cid s H r H', rrun_task F cid s H = Some (r, H') -> R H H').
 
@@ -199,7 +200,7 @@ Section Frame.
 
   Lemma spec_step : forall F, spec F -> spec (step_funs F).
   Proof.
-    intros F (IHp & IHn & IHs & IHd & IHr).
+    intros F (IHp & IHn & IHs & IHl & IHd & IHr).
     repeat split.
     - (* poll *)
       intros c w fs H r H' E. cbn [step_funs rpoll] in E. unfold poll_body in E.
@@ -284,14 +285,17 @@ Section Frame.
         match goal with |- R H (fold_left ?g ?l ?H1) => eapply R_trans; [|apply (R_fold g)] end.
         * rsolve.
         * intros e Hh. destruct e; [|apply R_refl]. rsolve.
-      + match type of E with context[fold_left ?g ?l ?H0] => assert (R1 : R H (fold_left g l H0)) end.
-        { match goal with |- R H (fold_left ?g ?l ?H0) => eapply R_trans; [|apply (R_fold g)] end.
-          - rsolve.
-          - intros t Hh. rsolve. }
-        match type of E with context[fold_left ?g ?l ?H0] => set (H1 := fold_left g l H0) in * end.
-        destruct (c_ready (gcmd cid H1)); [inversion E; subst; exact R1|].
-        destruct (rdrain F cid H1) as [H2|] eqn:E2; [|discriminate].
-        apply IHd in E2. apply IHs in E. eapply R_trans; [exact R1|]. eapply R_trans; eassumption.
+      + apply IHl in E. exact E.
+    - (* loop *)
+      intros cid H H' E. cbn [step_funs rloop] in E. unfold loop_body in E.
+      match type of E with context[fold_left ?g ?l ?H0] => assert (R1 : R H (fold_left g l H0)) end.
+      { match goal with |- R H (fold_left ?g ?l ?H0) => eapply R_trans; [|apply (R_fold g)] end.
+        - rsolve.
+        - intros t Hh. rsolve. }
+      match type of E with context[fold_left ?g ?l ?H0] => set (H1 := fold_left g l H0) in * end.
+      destruct (c_ready (gcmd cid H1)); [inversion E; subst; exact R1|].
+      destruct (rdrain F cid H1) as [H2|] eqn:E2; [|discriminate].
+      apply IHd in E2. apply IHl in E. eapply R_trans; [exact R1|]. eapply R_trans; eassumption.
     - (* drain *)
       intros cid H H' E. cbn [step_funs rdrain] in E. unfold drain_body in E.
       destruct (c_ready (gcmd cid H)) as [|s rest]; [inversion E; subst; apply R_refl|].
@@ -328,6 +332,8 @@ Section Frame.
   Proof. induction fuel as [|f IH]; [apply spec_funs0 | apply spec_step; exact IH]. Qed.
 
   Lemma frame_settle fuel cid H H' : settle fuel cid H = Some H' -> R H H'.
+  Proof. apply (frame_all fuel). Qed.
+  Lemma frame_loop fuel cid H H' : settle_loop fuel cid H = Some H' -> R H H'.
   Proof. apply (frame_all fuel). Qed.
   Lemma frame_poll_next fuel cid w H r H' : poll_next fuel cid w H = Some (r, H') -> R H H'.
   Proof. apply (frame_all fuel). Qed.
